@@ -7,7 +7,7 @@ R1  functions reachable from the processing path keep no state outside the chunk
 R2  helpers are pure: no public helper mutates an argument it does not own; chunk methods store only
     to their own instance or to fresh local objects.
 """
-from sa.rules import confinement, ownership
+from sa.rules import confinement, ownership, determinism
 from sa.rules.params import global_read_discipline
 
 LEVEL = 'other'
@@ -16,6 +16,8 @@ LEVEL = 'other'
 def check(ctx):
     confinement.module_state(ctx, 'C13-R1')
     global_read_discipline(ctx, 'C13-R1')
+    determinism.explicit_random_state(ctx, 'C13-R1')
+    determinism.rng_confinement(ctx, 'C13-R1')
     ownership.helpers_pure(ctx, 'C13-R2')
     ownership.chunk_methods_confined(ctx, 'C13-R2')
     ctx.assumptions += ['third-party code (pandas, NumPy, scikit-learn, statsmodels) is thread-safe on '
